@@ -136,6 +136,8 @@ struct Registry {
     fns: HashMap<String, FnInfo>,
     /// struct → field → Lean type (translatable fields only)
     struct_fields: HashMap<String, HashMap<String, String>>,
+    /// (struct, field) pairs whose Rust type is `String` (the layer mode slices them as `str`)
+    str_fields: HashSet<(String, String)>,
     const_ty: HashMap<String, String>,
     /// helper functions whose whole body is `Err(ZipError::V(arg))`: name → V
     errfns: HashMap<String, String>,
@@ -3766,6 +3768,7 @@ fn main() {
                             if st.ident != name || !cfg_on(&st.attrs) { continue; }
                             t6r2::register_reader_field(st);
                             let mut m = HashMap::new();
+                            let mut strs: Vec<(String, String)> = vec![];
                             if let Fields::Named(n) = &st.fields {
                                 let mut tr = Tr::new(&reg, &no_failed, Some(name.clone()), 0);
                                 if kind == "sstruct" { tr.mode = Mode::S; }
@@ -3774,9 +3777,13 @@ fn main() {
                                     if let Ok(t) = tr.ty(&fl.ty) {
                                         m.insert(fl.ident.as_ref().unwrap().to_string(), t);
                                     }
+                                    if matches!(&fl.ty, Type::Path(p) if path_last(&p.path) == "String") {
+                                        strs.push((name.clone(), fl.ident.as_ref().unwrap().to_string()));
+                                    }
                                 }
                             }
                             reg.struct_fields.insert(name.clone(), m);
+                            reg.str_fields.extend(strs);
                         }
                     }
                 }
